@@ -32,6 +32,21 @@ Deviations crossed with the families (each is a dimension of the enumeration, ne
   expectation - here also at the default sizes as_polyline() = 100 points and as_surface() = 20 x 20, which the small
   resolutions never reach.  The documented signatures are pinned in DOC_SIGNATURE (never read from the library at run time);
   C19.defaults.signature compares them with inspect.signature() (mc/c19_forms.py).
+* anisotropic scaling (extreme aspect ratios, magnitudes 2^K next to unit ones): coordinate k of every mesh vertex / box corner /
+  control point is multiplied by 2^e[k], e in {0,K}^dim (not all equal) or (0,K/2,K), K = 27 (thorough 14, 27, 40): needle triangles
+  of aspect ratio up to 2^K, polylines whose edge lengths differ by 2^K, flat boxes.  The expectations are evaluated exactly on the
+  stretched INTEGER coordinates (shares from exact squared lengths / areas, containment with a tolerance stated as a length: 1e-12 x
+  largest coordinate); box and Bezier answers are divided by the per-axis factors (exact) and meet the unscaled expectations
+  (input class suffix ':anisotropic_scaling'; thorough: also combined with the unit of length 2^-K, i.e. unit-size slivers).
+* call histories on the DOMAIN OBJECTS (mc/c19_hist.py; suffix ':call_history'): the box / mesh / centre handed to a sampler has a
+  life before the call.  Boxes: population of <= 3 boxes, events = a second box on the corners of another one (AABB(b.mini, b.maxi)),
+  on the caller's very corner objects again, union / intersection (| and &, also of a box with itself), pad (float, vector in 4 forms,
+  negative = nothing), sampling sweep; first box requested in 8 forms (tuples, lists, float64 / int64 / float32 arrays, Vec,
+  unit_cube, of_points).  Meshes: the mesh and its mesh.copy (attribute / connectivity options), events = transform.translate, a
+  vertex assigned / edited in place on either, sampling either, overwriting the answer.  Sphere / ball: ONE centre object (5 forms)
+  through sequences of sphere / ball calls with answers overwritten in between.  Reference model = value semantics (a mutator changes
+  the object it is called on and nothing else); every sampling answer is judged by the regular judges against the domain the model
+  holds for the sampled object at that time; the caller's own argument objects must hold what he put there after every event.
 """
 from __future__ import annotations
 import itertools, math, os
@@ -40,6 +55,7 @@ from fractions import Fraction as Fr
 from mc.core import Report, call, exc_kind
 from mc import c19_lib as L
 from mc import c19_forms as FM
+from mc import c19_hist as H
 from mc.c19_lib import U6
 
 ID = "C19"
@@ -53,7 +69,10 @@ RULE = ("samplers: one case = (sampler, parameters, return mode, n_pts, script o
         "2^40; history cases = (polygon / net, first call, index of the moved control point, replace | in place, order of "
         "the calls made after the edit); ownership cases = (polygon / net, argument form, call whose result is overwritten); "
         "argument-form cases = (entry point, requested value of every documented parameter, script of draws), each made in every "
-        "form the documented signature allows (keyword / positional up to each option / options at their documented default left out)")
+        "form the documented signature allows (keyword / positional up to each option / options at their documented default left out); "
+        "anisotropic cases = (sampler / Bezier case with a reduced draw script, exponent vector e: coordinate k x 2^e[k]); domain-history "
+        "cases = (world: box form x dimension | mesh specimen | centre form, event sequence allowed by the reference model up to the depth "
+        "bound), every sequence replayed on fresh real objects, breadth first")
 ASSUMPTIONS = [
     "randomness reaches mouette/sampling.py only through the module-level names np.random.*, random, choice (all "
     "rebound by the harness; numpy global RNG state and Python random state are verified unchanged by every execution)",
@@ -79,6 +98,19 @@ ASSUMPTIONS = [
     "violation of C19.defaults.signature; argument forms are compared under identical scripted draws (an answer that differs only "
     "in which exception is raised is not a difference); these tasks are not crossed with the unit of length nor with the "
     "attribute-blackboard / duplicate-flag variants",
+    "anisotropic scaling: only exact powers of two per axis, exponents {0,K} (not all equal) and (0,K/2,K), K = 27 (thorough 14, 27, 40; "
+    "thorough surfaces also x unit of length 2^-40): the stretched coordinates stay integers (exact oracles; squared double areas up to 2^200 as "
+    "Python integers, one square root each); a sampled point counts as inside its needle face / on its edge when its distance to the face "
+    "/ edge is below 1e-12 x the largest coordinate (a barycentric tolerance would turn one ulp of a coordinate into ulp / altitude); "
+    "reduced draw scripts (tiled, n_pts <= 2 on meshes); not crossed with the attribute-blackboard / duplicate-flag variants; sphere / ball "
+    "have no aspect ratio (not run)",
+    "domain histories: value semantics of the box / mesh objects is the reference (AABB.pad is documented to enlarge 'the bounding box', "
+    "transform.translate to move 'the mesh', mesh.copy to make 'a hard copy'; the unchanged tree behaves so); events are limited to the "
+    "documented constructors / mutators named in BOUNDS, populations to 3 boxes / 2 meshes, depth as in BOUNDS; the vectors handed out by "
+    "AABB.mini / .maxi are NOT overwritten by the harness (the unchanged tree hands out the stored corner itself - outside this property), "
+    "nor are the caller's corner arrays edited after construction (AABB keeps a view of a float64 array it is given - documented nowhere, "
+    "not asserted either way); a box whose model is empty is not sampled; mesh geometry that an event would make degenerate ends the "
+    "history; Bezier objects have no library mutator and no derived objects: their histories are the control-point edit histories above",
 ]
 BOUNDS = {
     "quick": "sphere/ball: centres {0,(1,-2,3)} x radii {0.1,1,3} x n_pts {1,2,8,9,10,27} x 26 lattice directions "
@@ -99,11 +131,20 @@ BOUNDS = {
              "polylines with 1 and 2 edges, surfaces with 1 and 2 faces, n_pts {1,2} x 2 scripts x all return modes; AABB dim 1-3, "
              "unit_cube dim 1-4 x centered, of_points / of_mesh x padding {0, 0.5}; 2 curves (3-D degree 2, 2-D degree 3): evaluate at "
              "{0,1/3,1}, as_polyline (n_pts, custom_pos) in {(100,None),(3,None),(100,3 pos),(7,3 pos),(100,101 pos),(2,101 pos)}; "
-             "2 generic nets (2x3, 3x3): evaluate at 3 pairs, as_surface (20,20),(2,3),(20,3),(2,20),(3,2); each in all forms",
+             "2 generic nets (2x3, 3x3): evaluate at 3 pairs, as_surface (20,20),(2,3),(20,3),(2,20),(3,2); each in all forms; "
+             "anisotropic scaling K=27: every polyline task (n_pts {1,2}, tiled) and the surfaces of the unit-of-length selection (n_pts 2) x 3 "
+             "of the 7 exponent vectors by rotation, every box of dim 2-4 (grid: all n_pts; uniform: reduced, tiled; dim 4: every 2nd of 14 "
+             "vectors), every 4th polygon / 6th net x 3 single-axis vectors; domain histories: boxes 8 forms x dim 1-3, all event sequences "
+             "up to depth 2 (dim 2: depth 3, ~3400 sequences per form), sphere / ball 5 centre forms x all sequences of <= 3 events "
+             "(2 samplers x radii {0.1,3} x 2 return modes + overwrite), meshes: 2-face surface and 2-edge polyline depth 3, 1-face / 1-edge "
+             "depth 2, copies (attributes, connectivity) in {(F,F),(T,T)}, n_pts 2 per call, every mesh sampled after every sequence",
     "thorough": "as quick with 124 lattice directions, 4 intervals per axis (340 boxes, sliding up to dim 3), polylines on 5 "
                 "lattice points plus all 63 graphs on 4 vertices, surfaces x 3 point sets with n_pts {1,2,8,9,10,27} "
                 "sliding, curves over 5 / 4 lattice points, nets 2x2 (4 pts), 2x3/3x2 (3 pts), 3x3 (2 pts); unit of length: all "
-                "surfaces and all nets; histories: every polygon, every 2nd net + the generic ones; documented defaults / call forms as quick",
+                "surfaces and all nets; histories: every polygon, every 2nd net + the generic ones; documented defaults / call forms as quick; "
+                "anisotropic scaling: all 7 vectors at K=27 plus two vectors (by rotation) of K=14 and of K=40 on every polyline / surface task "
+                "(the 63 four-vertex graphs: 3 vectors by rotation), surfaces also at unit of length 2^-40, all boxes with K in {14,27,40}, "
+                "every polygon / 2nd net; domain histories: boxes depth 3 (dim 2: depth 4), meshes depth 3 with all 4 copy options",
 }
 
 N_PTS = [1, 2, 8, 9, 10, 27]
@@ -128,6 +169,9 @@ SEED = int(os.environ.get("VERIF_SEED", "0") or 0)
 # answers are divided by 2^k (exactly) and must then satisfy the very same exact expectations: containment, on-sphere,
 # on-edge, in-face, the p handed to choice, Bernstein values all scale exactly; every tolerance is relative
 SCALE_EXPS = [-40, 40]
+# anisotropic deviation: coordinate k of every mesh vertex / box corner / control point is multiplied by 2^e[k], e in {0, K}^dim
+# (not all equal) or (0, K/2, K); the expectations are evaluated exactly on the stretched integer coordinates
+ANISO_EXPS = {"quick": [27], "thorough": [14, 27, 40]}
 OFFSET = [3, -5, 7]                       # a control point is moved by this lattice vector in the edit histories
 FORMS = ["tuples", "ndarray", "vecs"]     # argument forms of the control points handed to the constructors
 H_PARAMS = [0.0, 1.0 / 3.0, 1.0]          # parameters of the call made before a control point is edited (patches)
@@ -234,10 +278,58 @@ def tasks(tier):
                 out.append(dict(t, lite=True, scale_exps=ex))
             elif k == "patch":
                 out.append(dict(t, nets=t["nets"][::(3 if q else 1)] , lite=True, scale_exps=ex))
+    # ---- anisotropic deviation (extreme aspect ratios, magnitudes 2^k next to unit ones): coordinate k of every mesh vertex /
+    # box corner / control point x 2^e[k]; needle triangles, edges whose lengths differ by 2^k, flat boxes (reduced draw scripts)
+    ks = ANISO_EXPS[tier]
+    i_surf = 0
+    for t in base:
+        k = t["kind"]
+        if k in ("polyline", "surface"):
+            main = _aniso_vectors(27, 3) + [[0, 13, 27]]
+            if q or t.get("nv") == 4 and k == "polyline":
+                # quick (and the 63 four-vertex graphs of thorough): three of the seven vectors per specimen, by rotation
+                vecs = [main[(i_surf + j) % len(main)] for j in (0, 2, 4)]
+            else:   # thorough: all seven at K = 27 and, by rotation, two vectors of each other K
+                vecs = list(main)
+                for kk in ks:
+                    if kk != 27:
+                        other = _aniso_vectors(kk, 3) + [[0, kk // 2, kk]]
+                        vecs += [other[(i_surf + j) % len(other)] for j in (0, 3)]
+            i_surf += 1
+            if k == "polyline":
+                out.append(dict(t, n_pts=[1, 2], sliding=False, anisos=vecs, aniso_units=[0]))
+            elif not q or t["pointset"] == "moment" or t["nv"] == 3:
+                out.append(dict(t, n_pts=[2], sliding=False, anisos=vecs, aniso_units=[0] if q else [0, -40]))
+        elif k == "aabb_grid" and t["dim"] >= 2:
+            out.append(dict(t, anisos=[v for kk in ks for v in _aniso_vectors(kk, t["dim"])]))
+        elif k == "aabb_uniform" and t["dim"] >= 2:
+            out.append(dict(t, n_pts=[1, 2, 9] if t["dim"] <= 2 else [2], sliding=False,
+                            anisos=[v for kk in ks for v in _aniso_vectors(kk, t["dim"])][::(1 if t["dim"] <= 3 or not q else 2)]))
+        elif k == "curve":
+            out.append(dict(t, polygons=t["polygons"][::(4 if q else 1)], lite=True, anisos=[[ks[-1], 0, 0], [0, ks[-1], 0], [0, 0, ks[-1]]]))
+        elif k == "patch":
+            out.append(dict(t, nets=t["nets"][::(6 if q else 2)], lite=True, anisos=[[ks[-1], 0, 0], [0, ks[-1], 0], [0, 0, ks[-1]]]))
+    # ---- call histories on the domain objects (boxes: derive / pad / sample; meshes: copy / transform / edit / sample; centre)
+    for form in BOX_FORMS:
+        for dim in (1, 2, 3):
+            depth = (3 if dim == 2 else 2) if q else (4 if dim == 2 else 3)
+            parts = 1 if q else (8 if depth == 4 else 2)
+            for part in range(parts):
+                out.append({"kind": "hist_box", "form": form, "dim": dim, "depth": depth, "part": [part, parts]})
+    for form in CENTRE_FORMS:
+        out.append({"kind": "hist_round", "form": form, "depth": 3})
+    for spec in H_MESHES:
+        out.append({"kind": "hist_mesh", "specimen": spec, "depth": (3 if spec.endswith("2") else 2) if q else 3,
+                    "copies": [[False, False], [True, True]] if q else [[False, False], [True, False], [False, True], [True, True]]})
     # ---- documented defaults / argument forms of every public entry point (same in both tiers)
     for g in DEFAULTS_GROUPS:
         out.append({"kind": "defaults", "group": g})
     return out
+
+
+def _aniso_vectors(k, dim):
+    """all exponent vectors in {0, k}^dim but the two isotropic ones"""
+    return [list(v) for v in itertools.product((0, k), repeat=dim) if 0 < sum(1 for x in v if x) < dim]
 
 
 def _is_generic(net):
@@ -267,13 +359,43 @@ class Ctx:
         self.suffix = ""
         self.reference = False            # unit-of-length tasks: the run at unit 1, whose violations are only remembered
         self.ref_fps = set()
+        self.aniso = None                 # anisotropic deviation: coordinate k of every input is multiplied by 2^aniso[k]
+        self.unit_suffix = ""
+        self.hist_suffix = ""             # call histories on the domain objects: what was done before the judged call
+
+    def set_history(self, suffix):
+        self.hist_suffix = suffix
+        self._compose_suffix()
+
+    def set_aniso(self, vec):
+        """per-axis powers of two (exponents >= 0) applied to every coordinate of the inputs of this run"""
+        self.aniso = [int(a) for a in vec] if vec and any(vec) else None
+        self._compose_suffix()
+
+    def _compose_suffix(self):
+        self.suffix = (":anisotropic_scaling" if self.aniso else "") + self.unit_suffix + self.hist_suffix
+
+    def axis(self, width):
+        """factor by which coordinate k (k < width) of an input was multiplied: unit of length x 2^aniso[k] (exact)"""
+        import numpy as np
+        a = self.aniso or []
+        return np.array([self.s * 2.0 ** (a[k] if k < len(a) else 0) for k in range(width)])
+
+    def stretch(self, p):
+        """an integer point in the (integer) anisotropically scaled frame (the unit of length is applied separately)"""
+        a = self.aniso or []
+        return [x * 2 ** (a[k] if k < len(a) else 0) for k, x in enumerate(p)]
 
     def set_unit(self, task, kind):
         self.ex = int(task.get("scale_exp", 0) or 0)
         self.s = 2.0 ** self.ex
-        self.suffix = f":unit_of_length=2^{self.ex}" if self.ex else ""
+        self.unit_suffix = f":unit_of_length=2^{self.ex}" if self.ex else ""
+        self._compose_suffix()
         if self.ex:
             self.rep.flag(f"unit:2^{self.ex}:{kind}")
+        if self.aniso:
+            self.rep.flag(f"aniso:{kind}")
+            self.rep.flag("aniso:2^%d" % max(self.aniso))
         return self.s
 
     def violation(self, sub, callee, kind, icls, detail):
@@ -282,13 +404,16 @@ class Ctx:
         if self.reference:
             self.ref_fps.add((sub, callee, kind, icls))
             return
-        if self.ex and (sub, callee, kind, icls) in self.ref_fps:
+        if (self.ex or self.aniso or self.hist_suffix) and (sub, callee, kind, icls) in self.ref_fps:
             self.rep.count("unit:violations_seen_at_unit_1_too")
             return
         icls = icls + self.suffix
         if self.ex and isinstance(detail, dict):
             detail = dict(detail, unit_of_length=f"every coordinate / radius shown here was multiplied by 2^{self.ex} "
                                                  "before the call, every answer divided by it")
+        if self.aniso and isinstance(detail, dict):
+            detail = dict(detail, anisotropic_scaling=f"coordinate k of every input point was multiplied by 2^e[k], e = {self.aniso}, "
+                                                      "before the call (the coordinates shown are the stretched ones unless said otherwise)")
         fp = (sub, callee, kind, icls)
         self.rep.count("violating_executions:" + sub)
         if fp in self.seen:          # one record per fingerprint and task (the first = the simplest)
@@ -440,19 +565,21 @@ def _box_class(box):
     return "box==unit_cube" if all(lo == 0 and hi == 1 for lo, hi in box) else "box!=unit_cube"
 
 
-def _check_box_points(ctx, o, pc, dim, box, mode, n, det, allowed_counts):
+def _check_box_points(ctx, o, pc, dim, box, mode, n, det, allowed_counts, hist=False):
     import numpy as np
     rep = ctx.rep
     callee = "sampling.sample_AABB"
     icls = f"mode={mode}:{_box_class(box)}"
     ccls = f"mode={mode}"                       # return / count clauses do not depend on where the box is
+    if hist:                                    # call histories: one class (the mode and the box are in the detail; what was done to
+        mode, icls, ccls = "history", "box", "box"   # the sampled box before is the suffix of the class)
     if not o.ok:
         ctx.violation(f"C19.aabb.{mode}.returns", callee, exc_kind(o), ccls, dict(det, msg=o.msg))
         return
     pts = _points_of(ctx, o, pc, f"C19.aabb.{mode}.count", callee, ccls, det)
     if pts is None:
         return
-    pts = pts / ctx.s
+    pts = pts / (ctx.axis(pts.shape[1]) if pts.ndim == 2 else ctx.s)
     rep.evaluations += 1 + len(pts)
     width = 3 if pc else dim
     if pts.ndim != 2 or pts.shape[1] != width or pts.shape[0] not in allowed_counts:
@@ -473,15 +600,18 @@ def _check_box_points(ctx, o, pc, dim, box, mode, n, det, allowed_counts):
 
 
 def _make_box(box, s=1.0):
+    """s: one factor, or one factor per axis (exact powers of two)"""
     from mouette.geometry import AABB
-    return AABB([float(b[0]) * s for b in box], [float(b[1]) * s for b in box])
+    sv = [float(s)] * len(box) if isinstance(s, (int, float)) else [float(x) for x in s]
+    return AABB([float(b[0]) * sv[k] for k, b in enumerate(box)], [float(b[1]) * sv[k] for k, b in enumerate(box)])
 
 
 def _run_aabb_grid(task, ctx: Ctx):
     from mouette import sampling
     rep = ctx.rep
     dim = task["dim"]
-    s = ctx.set_unit(task, "aabb_grid")
+    ctx.set_unit(task, "aabb_grid")
+    s = ctx.axis(dim)
     for box in task["boxes"]:
         rep.flag(f"aabb:grid:dim{dim}")
         rep.flag("aabb:grid:" + _box_class(box))
@@ -502,7 +632,8 @@ def _run_aabb_uniform(task, ctx: Ctx):
     rep = ctx.rep
     dim = task["dim"]
     combos = list(itertools.product(U6, repeat=dim))
-    s = ctx.set_unit(task, "aabb_uniform")
+    ctx.set_unit(task, "aabb_uniform")
+    s = ctx.axis(dim)
     for box in task["boxes"]:
         rep.flag(f"aabb:uniform:dim{dim}")
         for n in task["n_pts"]:
@@ -529,6 +660,75 @@ def _placements(task):
     return [pts[:nv], pts[:nv][::-1]]
 
 
+def _polyline_geometry(coords, medges, unit=1.0):
+    sq = [sum((coords[a][k] - coords[b][k]) ** 2 for k in range(3)) for a, b in medges]
+    scale = max(1.0, max(abs(x) for p in coords for x in p))
+    NE = len(medges)
+    return {"coords": coords, "medges": medges, "sq": sq, "elen": [math.sqrt(q) for q in sq], "want_p": L.shares(sq), "NE": NE,
+            "icls": "NE==1" if NE == 1 else "NE>1", "unit": unit, "tol_len": 1e-12 * scale, "tol": 1e-12}
+
+
+def _judge_polyline_sample(ctx, o, G, n, pc, rows, det):
+    """ONE answer of sample_polyline against the exact expectations for the polyline G (integer coordinates, in the unit G['unit'])"""
+    import numpy as np
+    rep = ctx.rep
+    callee = "sampling.sample_polyline"
+    coords, medges, sq, elen, want_p, NE, icls, unit = (G[k] for k in ("coords", "medges", "sq", "elen", "want_p", "NE", "icls", "unit"))
+    tol_len, tol = G["tol_len"], G["tol"]
+    if not o.ok:
+        ctx.violation("C19.polyline.returns", callee, exc_kind(o), icls, dict(det, msg=o.msg))
+        return
+    pts = _points_of(ctx, o, pc, "C19.polyline.count", callee, icls, det)
+    if pts is None:
+        return
+    pts = pts / unit
+    rep.evaluations += 1 + len(pts)
+    if pts.shape != (n, 3):
+        ctx.violation("C19.polyline.count", callee, "mismatch:count", icls, dict(det, got_shape=list(pts.shape)))
+        return
+    if not np.isfinite(pts).all():
+        ctx.violation("C19.polyline.on_edge", callee, "mismatch:non_finite", "any", dict(det, points=pts[:3]))
+        return
+    # ---- the distribution over edges, decided exactly from what `choice` was given
+    calls = ctx.seam.choice_calls
+    chosen = None
+    if NE > 1:
+        if len(calls) != 1 or calls[0]["a"] != NE:
+            rep.count("harness:share_undecided")
+        else:
+            rep.flag("polyline:choice_called")
+            got_p = calls[0]["p"] if calls[0]["p"] is not None else [1.0 / NE] * NE   # no p = uniform
+            rep.evaluations += 1
+            if len(got_p) != NE or not all(_close(x, y) for x, y in zip(got_p, want_p)):
+                ctx.violation("C19.polyline.share", callee, "mismatch:probabilities", icls,
+                              dict(det, got_p=got_p, exact_shares=want_p, squared_lengths=sq))
+            if len(calls[0]["returned"]) == n:
+                chosen = calls[0]["returned"]
+            if len(set(round(x, 12) for x in want_p)) > 1:
+                rep.flag("polyline:unequal_shares")
+                if unit * math.fsum(math.sqrt(q) for q in sq) < 1e-8:
+                    rep.flag("polyline:unequal_shares:total_length<1e-8")
+    else:
+        chosen = [0] * n
+    # ---- every point on an edge (exact test); on the edge that was drawn for it
+    for i in range(n):
+        p = [float(x) for x in pts[i]]
+        hit = []
+        for e, (a, b) in enumerate(medges):
+            dist, s = L.segment_coords(p, coords[a], coords[b])
+            # on the closed edge up to a rounding of the coordinates: as a fraction of the edge, or as a
+            # length (1e-12 x largest coordinate) - edges of one polyline may differ in length by 2^27
+            if dist <= tol_len and (-tol <= s <= 1 + tol or -tol_len <= s * elen[e] <= elen[e] + tol_len):
+                hit.append(e)
+        if not hit:
+            ctx.violation("C19.polyline.on_edge", callee, "mismatch:off_every_edge", "any",
+                          dict(det, point_index=i, point=p, draws_of_point=rows[i]))
+        elif chosen is not None and chosen[i] not in hit:
+            ctx.violation("C19.polyline.share", callee, "mismatch:not_on_drawn_edge", "any",
+                          dict(det, point_index=i, point=p, drawn_edge=chosen[i], edges_containing_point=hit))
+        rep.outcome("sample_polyline.edge_hit", str(hit))
+
+
 def _run_polyline(task, ctx: Ctx):
     import numpy as np
     from mouette import sampling
@@ -542,14 +742,14 @@ def _run_polyline(task, ctx: Ctx):
     rep.flag("polyline:" + icls)
     unit = ctx.set_unit(task, "polyline")
     for coords in _placements(task):
+        coords = [ctx.stretch(p) for p in coords]          # integers (anisotropic deviation: coordinate k x 2^e[k])
         mesh = F.build_polyline([[x * unit for x in p] for p in coords], edges_in)
         medges = [tuple(int(v) for v in mesh.edges[e]) for e in range(len(mesh.edges))]
         if len(medges) != NE:
             raise RuntimeError("family member changed by the constructor")   # input family broken: harness error
-        sq = [sum((coords[a][k] - coords[b][k]) ** 2 for k in range(3)) for a, b in medges]
-        want_p = L.shares(sq)
-        scale = max(1.0, max(abs(x) for p in coords for x in p))
-        tol_len, tol = 1e-12 * scale, 1e-12
+        G = _polyline_geometry(coords, medges, unit)
+        if ctx.aniso and max(G["sq"]) >= 2 ** 40 * min(G["sq"]):
+            rep.flag("aniso:polyline:edge_lengths_differ_by>=2^20")
         for pc in (False, True):
             for n in task["n_pts"]:
                 for off, rows in L.windows(combos, n, task["sliding"]):
@@ -559,67 +759,112 @@ def _run_polyline(task, ctx: Ctx):
                     det = {"vertices": coords, "edges": medges, "n_pts": n, "return_point_cloud": pc,
                            "draws_per_point(edge index, uniform01)": rows[:3]}
                     rep.case(("polyline", coords, medges, n, pc, off, ctx.ex))
-                    if not o.ok:
-                        ctx.violation("C19.polyline.returns", callee, exc_kind(o), icls, dict(det, msg=o.msg))
-                        continue
-                    pts = _points_of(ctx, o, pc, "C19.polyline.count", callee, icls, det)
-                    if pts is None:
-                        continue
-                    pts = pts / unit
-                    rep.evaluations += 1 + len(pts)
-                    if pts.shape != (n, 3):
-                        ctx.violation("C19.polyline.count", callee, "mismatch:count", icls, dict(det, got_shape=list(pts.shape)))
-                        continue
-                    if not np.isfinite(pts).all():
-                        ctx.violation("C19.polyline.on_edge", callee, "mismatch:non_finite", "any", dict(det, points=pts[:3]))
-                        continue
-                    # ---- the distribution over edges, decided exactly from what `choice` was given
-                    calls = ctx.seam.choice_calls
-                    chosen = None
-                    if NE > 1:
-                        if len(calls) != 1 or calls[0]["a"] != NE:
-                            rep.count("harness:share_undecided")
-                        else:
-                            rep.flag("polyline:choice_called")
-                            got_p = calls[0]["p"] if calls[0]["p"] is not None else [1.0 / NE] * NE   # no p = uniform
-                            rep.evaluations += 1
-                            if len(got_p) != NE or not all(_close(x, y) for x, y in zip(got_p, want_p)):
-                                ctx.violation("C19.polyline.share", callee, "mismatch:probabilities", icls,
-                                              dict(det, got_p=got_p, exact_shares=want_p, squared_lengths=sq))
-                            if len(calls[0]["returned"]) == n:
-                                chosen = calls[0]["returned"]
-                            if len(set(round(x, 12) for x in want_p)) > 1:
-                                rep.flag("polyline:unequal_shares")
-                                if unit * math.fsum(math.sqrt(q) for q in sq) < 1e-8:
-                                    rep.flag("polyline:unequal_shares:total_length<1e-8")
-                    else:
-                        chosen = [0] * n
-                    # ---- every point on an edge (exact test); on the edge that was drawn for it
-                    for i in range(n):
-                        p = [float(x) for x in pts[i]]
-                        hit = []
-                        for e, (a, b) in enumerate(medges):
-                            dist, s = L.segment_coords(p, coords[a], coords[b])
-                            if dist <= tol_len and -tol <= s <= 1 + tol:
-                                hit.append(e)
-                        if not hit:
-                            ctx.violation("C19.polyline.on_edge", callee, "mismatch:off_every_edge", "any",
-                                          dict(det, point_index=i, point=p, draws_of_point=rows[i]))
-                        elif chosen is not None and chosen[i] not in hit:
-                            ctx.violation("C19.polyline.share", callee, "mismatch:not_on_drawn_edge", "any",
-                                          dict(det, point_index=i, point=p, drawn_edge=chosen[i], edges_containing_point=hit))
-                        rep.outcome("sample_polyline.edge_hit", str(hit))
+                    _judge_polyline_sample(ctx, o, G, n, pc, rows, det)
     rep.sample({"sampler": "sample_polyline", "vertices": coords, "edges": medges, "script_of_last_execution": rows[:2]})
 
 
 # ================================================================================================ surfaces
+def _surface_geometry(coords, mfaces, usc=1.0):
+    """exact data of a triangulated surface on integer coordinates; None if a face has no area (outside the statement)"""
+    nrm = [L.tri_normal_int(*(coords[v] for v in f)) for f in mfaces]
+    sq = [sum(x * x for x in nv_) for nv_ in nrm]                 # (2*area)^2, exact
+    if min(sq) == 0:
+        return None
+    scale = max(1.0, max(abs(x) for p in coords for x in p))
+    NF = len(mfaces)
+    return {"coords": coords, "mfaces": mfaces, "sq": sq, "want_p": L.shares(sq), "NF": NF, "icls": "NF==1" if NF == 1 else "NF>1",
+            "usc": usc, "unit": [[x / math.sqrt(s) for x in nv_] for nv_, s in zip(nrm, sq)], "tol_len": 1e-12 * scale, "tol": 1e-12}
+
+
+def _judge_surface_sample(ctx, o, G, n, pc, wn, rows, det):
+    """ONE answer of sample_surface against the exact expectations for the surface G (integer coordinates, in the unit G['usc'])"""
+    import numpy as np
+    rep = ctx.rep
+    callee = "sampling.sample_surface"
+    coords, mfaces, sq, want_p, NF, icls, usc, unit = (G[k] for k in ("coords", "mfaces", "sq", "want_p", "NF", "icls", "usc", "unit"))
+    tol_len, tol = G["tol_len"], G["tol"]
+    if not o.ok:
+        ctx.violation("C19.surface.returns", callee, exc_kind(o), icls, dict(det, msg=o.msg))
+        return
+    val, normals = o.value, None
+    if wn and not pc:
+        if not (isinstance(val, tuple) and len(val) == 2):
+            ctx.violation("C19.surface.normals", callee, "mismatch:return_type", icls, dict(det, got=type(val).__name__))
+            return
+        val, normals = val
+        normals = np.asarray(normals, dtype=float)
+    o2 = type(o)(True, val)
+    pts = _points_of(ctx, o2, pc, "C19.surface.count", callee, icls, det)
+    if pts is None:
+        return
+    pts = pts / usc
+    if wn and pc:
+        if not val.vertices.has_attribute("normals"):
+            ctx.violation("C19.surface.normals", callee, "mismatch:no_normals_attribute", icls, det)
+            return
+        attr = val.vertices.get_attribute("normals")
+        got = call(lambda: np.array([np.asarray(attr[i], dtype=float) for i in range(len(val.vertices))]))
+        if not got.ok:
+            ctx.violation("C19.surface.normals", callee, exc_kind(got), icls, dict(det, msg=got.msg))
+            return
+        normals = got.value.reshape(-1, 3) if got.value.size else got.value.reshape(0, 3)
+    rep.evaluations += 1 + len(pts)
+    if pts.shape != (n, 3) or (normals is not None and normals.shape != (n, 3)):
+        ctx.violation("C19.surface.count", callee, "mismatch:count", icls,
+                      dict(det, got_shape=list(pts.shape), normals_shape=None if normals is None else list(normals.shape)))
+        return
+    if not np.isfinite(pts).all():
+        ctx.violation("C19.surface.in_face", callee, "mismatch:non_finite", "any", dict(det, points=pts[:3]))
+        return
+    calls = ctx.seam.choice_calls
+    chosen = None
+    if len(calls) != 1 or calls[0]["a"] != NF:
+        rep.count("harness:share_undecided")
+    else:
+        rep.flag("surface:choice_called")
+        got_p = calls[0]["p"] if calls[0]["p"] is not None else [1.0 / NF] * NF       # no p = uniform
+        rep.evaluations += 1
+        if len(got_p) != NF or not all(_close(x, y) for x, y in zip(got_p, want_p)):
+            ctx.violation("C19.surface.share", callee, "mismatch:probabilities", icls,
+                          dict(det, got_p=got_p, exact_shares=want_p, squared_double_areas=sq))
+        if len(calls[0]["returned"]) == n:
+            chosen = calls[0]["returned"]
+        if len(set(round(x, 12) for x in want_p)) > 1:
+            rep.flag("surface:unequal_shares")
+    for i in range(n):
+        p = [float(x) for x in pts[i]]
+        hit = []
+        for f, fv in enumerate(mfaces):
+            dist, bary = L.triangle_coords(p, *(coords[v] for v in fv))
+            if dist <= tol_len and min(bary) >= -tol:
+                hit.append(f)
+            elif dist <= tol_len and min(L.triangle_margins(p, *(coords[v] for v in fv))[1]) >= -tol_len:
+                hit.append(f)      # inside up to a rounding of the coordinates, stated as a length: a needle
+                rep.flag("surface:needle_tolerance_used")   # triangle turns one ulp into ulp / altitude
+        if not hit:
+            ctx.violation("C19.surface.in_face", callee, "mismatch:outside_every_face", "any",
+                          dict(det, point_index=i, point=p, draws_of_point=rows[i]))
+        elif chosen is not None and chosen[i] not in hit:
+            ctx.violation("C19.surface.share", callee, "mismatch:not_in_drawn_face", "any",
+                          dict(det, point_index=i, point=p, drawn_face=chosen[i], faces_containing_point=hit))
+        rep.outcome("sample_surface.face_hit", str(hit))
+        if normals is not None and hit:
+            rep.evaluations += 1
+            rep.flag("surface:normal_checked")
+            nv_ = [float(x) for x in normals[i]]
+            if not any(all(abs(x - y) <= 1e-9 for x, y in zip(nv_, unit[f])) for f in hit):
+                ctx.violation("C19.surface.normals", callee, "mismatch:not_the_face_normal", "any",
+                              dict(det, point_index=i, point=p, got_normal=nv_,
+                                   unit_normals_of_faces_containing_point={str(f): unit[f] for f in hit}))
+
+
 def _run_surface(task, ctx: Ctx):
     import numpy as np
     from mouette import sampling
     from mc import families as F
     rep = ctx.rep
     callee = "sampling.sample_surface"
-    coords = SURF_POINTS[task["pointset"]][:task["nv"]]
+    coords = [ctx.stretch(p) for p in SURF_POINTS[task["pointset"]][:task["nv"]]]     # integers
     faces_in = [tuple(f) for f in task["faces"]]
     NF = len(faces_in)
     icls = "NF==1" if NF == 1 else "NF>1"
@@ -629,15 +874,18 @@ def _run_surface(task, ctx: Ctx):
     mfaces = [tuple(int(v) for v in mesh.faces[f]) for f in range(len(mesh.faces))]
     if sorted(mfaces) != sorted(faces_in) and len(mfaces) != NF:
         raise RuntimeError("family member changed by the constructor")
-    nrm = [L.tri_normal_int(*(coords[v] for v in f)) for f in mfaces]
-    sq = [sum(x * x for x in nv_) for nv_ in nrm]                 # (2*area)^2, exact
-    if min(sq) == 0:
+    G = _surface_geometry(coords, mfaces, usc)
+    if G is None:
         rep.count("filtered_degenerate")
         return
-    want_p = L.shares(sq)
-    unit = [[x / math.sqrt(s) for x in nv_] for nv_, s in zip(nrm, sq)]
-    scale = max(1.0, max(abs(x) for p in coords for x in p))
-    tol_len, tol = 1e-12 * scale, 1e-12
+    sq, want_p = G["sq"], G["want_p"]
+    if ctx.aniso:
+        for f, fv in enumerate(mfaces):      # aspect ratio (longest edge / altitude on it)^2 = longest^4 / (2 area)^2, exact
+            lsq = max(sum((coords[a][k] - coords[b][k]) ** 2 for k in range(3)) for a, b in ((fv[0], fv[1]), (fv[1], fv[2]), (fv[2], fv[0])))
+            if lsq * lsq >= 2 ** 40 * sq[f]:
+                rep.flag("aniso:surface:needle_face(aspect>=2^20)")
+        if len(set(round(x, 12) for x in want_p)) > 1:
+            rep.flag("aniso:surface:unequal_shares")
     combos = [(f, u1, u2) for f in range(NF) for u1 in U6 for u2 in U6]
     for pc, wn in ((False, False), (False, True), (True, False), (True, True)):
         rep.flag(f"surface:pc={pc}:normals={wn}")
@@ -649,76 +897,7 @@ def _run_surface(task, ctx: Ctx):
                 det = {"vertices": coords, "faces": mfaces, "n_pts": n, "return_point_cloud": pc, "return_normals": wn,
                        "draws_per_point(face index, u1, u2)": rows[:3]}
                 rep.case(("surface", task["pointset"], mfaces, n, pc, wn, off, ctx.ex))
-                if not o.ok:
-                    ctx.violation("C19.surface.returns", callee, exc_kind(o), icls, dict(det, msg=o.msg))
-                    continue
-                val, normals = o.value, None
-                if wn and not pc:
-                    if not (isinstance(val, tuple) and len(val) == 2):
-                        ctx.violation("C19.surface.normals", callee, "mismatch:return_type", icls, dict(det, got=type(val).__name__))
-                        continue
-                    val, normals = val
-                    normals = np.asarray(normals, dtype=float)
-                o2 = type(o)(True, val)
-                pts = _points_of(ctx, o2, pc, "C19.surface.count", callee, icls, det)
-                if pts is None:
-                    continue
-                pts = pts / usc
-                if wn and pc:
-                    if not val.vertices.has_attribute("normals"):
-                        ctx.violation("C19.surface.normals", callee, "mismatch:no_normals_attribute", icls, det)
-                        continue
-                    attr = val.vertices.get_attribute("normals")
-                    got = call(lambda: np.array([np.asarray(attr[i], dtype=float) for i in range(len(val.vertices))]))
-                    if not got.ok:
-                        ctx.violation("C19.surface.normals", callee, exc_kind(got), icls, dict(det, msg=got.msg))
-                        continue
-                    normals = got.value.reshape(-1, 3) if got.value.size else got.value.reshape(0, 3)
-                rep.evaluations += 1 + len(pts)
-                if pts.shape != (n, 3) or (normals is not None and normals.shape != (n, 3)):
-                    ctx.violation("C19.surface.count", callee, "mismatch:count", icls,
-                                  dict(det, got_shape=list(pts.shape), normals_shape=None if normals is None else list(normals.shape)))
-                    continue
-                if not np.isfinite(pts).all():
-                    ctx.violation("C19.surface.in_face", callee, "mismatch:non_finite", "any", dict(det, points=pts[:3]))
-                    continue
-                calls = ctx.seam.choice_calls
-                chosen = None
-                if len(calls) != 1 or calls[0]["a"] != NF:
-                    rep.count("harness:share_undecided")
-                else:
-                    rep.flag("surface:choice_called")
-                    got_p = calls[0]["p"] if calls[0]["p"] is not None else [1.0 / NF] * NF       # no p = uniform
-                    rep.evaluations += 1
-                    if len(got_p) != NF or not all(_close(x, y) for x, y in zip(got_p, want_p)):
-                        ctx.violation("C19.surface.share", callee, "mismatch:probabilities", icls,
-                                      dict(det, got_p=got_p, exact_shares=want_p, squared_double_areas=sq))
-                    if len(calls[0]["returned"]) == n:
-                        chosen = calls[0]["returned"]
-                    if len(set(round(x, 12) for x in want_p)) > 1:
-                        rep.flag("surface:unequal_shares")
-                for i in range(n):
-                    p = [float(x) for x in pts[i]]
-                    hit = []
-                    for f, fv in enumerate(mfaces):
-                        dist, bary = L.triangle_coords(p, *(coords[v] for v in fv))
-                        if dist <= tol_len and min(bary) >= -tol:
-                            hit.append(f)
-                    if not hit:
-                        ctx.violation("C19.surface.in_face", callee, "mismatch:outside_every_face", "any",
-                                      dict(det, point_index=i, point=p, draws_of_point=rows[i]))
-                    elif chosen is not None and chosen[i] not in hit:
-                        ctx.violation("C19.surface.share", callee, "mismatch:not_in_drawn_face", "any",
-                                      dict(det, point_index=i, point=p, drawn_face=chosen[i], faces_containing_point=hit))
-                    rep.outcome("sample_surface.face_hit", str(hit))
-                    if normals is not None and hit:
-                        rep.evaluations += 1
-                        rep.flag("surface:normal_checked")
-                        nv_ = [float(x) for x in normals[i]]
-                        if not any(all(abs(x - y) <= 1e-9 for x, y in zip(nv_, unit[f])) for f in hit):
-                            ctx.violation("C19.surface.normals", callee, "mismatch:not_the_face_normal", "any",
-                                          dict(det, point_index=i, point=p, got_normal=nv_,
-                                               unit_normals_of_faces_containing_point={str(f): unit[f] for f in hit}))
+                _judge_surface_sample(ctx, o, G, n, pc, wn, rows, det)
     rep.sample({"sampler": "sample_surface", "vertices": coords, "faces": mfaces, "script_of_last_execution": rows[:2]})
 
 
@@ -730,7 +909,10 @@ def _num(x):
 def _vec(v, s=1.0):
     """the answer as a list of floats, in the caller's unit of length (division by a power of two: exact)"""
     import numpy as np
-    return [float(x) / s for x in np.asarray(v, dtype=float).ravel()]
+    a = np.asarray(v, dtype=float).ravel()
+    if isinstance(s, (int, float)):
+        return [float(x) / s for x in a]
+    return [float(x) / (float(s[k]) if k < len(s) else 1.0) for k, x in enumerate(a)]   # one factor per axis (anisotropic deviation)
 
 
 def _vclose(got, want, scale):
@@ -758,10 +940,11 @@ def _run_curves(task, ctx: Ctx):
     import numpy as np
     import mouette as M
     rep = ctx.rep
-    s = ctx.set_unit(task, "curve")
+    ctx.set_unit(task, "curve")
     lite = bool(task.get("lite"))          # unit-of-length tasks: evaluations and two exports per polygon
     for ip, poly in enumerate(task["polygons"]):
         deg, dim = len(poly) - 1, len(poly[0])
+        s = ctx.axis(dim)                    # factor of every axis: unit of length x anisotropic deviation (powers of two)
         rep.flag(f"curve:degree{deg}:{dim}d")
         icls = f"{dim}d"                     # coarse class of a violation (degree is in the detail)
         eval_bad = False
@@ -769,11 +952,11 @@ def _run_curves(task, ctx: Ctx):
         Pq = [tuple(Fr(x) for x in p) for p in poly]
         # control points are handed over as float tuples or, every other polygon, as integer tuples (the lattice
         # alphabet is integral): the value must not depend on the number type of the control points
-        as_int = ip % 2 == 1 and all((float(x) * s).is_integer() for p in poly for x in p)
+        as_int = ip % 2 == 1 and all((float(x) * s[k]).is_integer() for p in poly for k, x in enumerate(p))
         if as_int:
             icls += ":int_control_points"
             rep.flag("curve:int_control_points")
-        o = call(M.splines.BezierCurve, [tuple((int(x * s) if as_int else float(x) * s) for x in p) for p in poly])
+        o = call(M.splines.BezierCurve, [tuple((int(x * s[k]) if as_int else float(x) * s[k]) for k, x in enumerate(p)) for p in poly])
         rep.traces += 1
         rep.states += 1
         if not o.ok:
@@ -844,7 +1027,7 @@ def _run_curves(task, ctx: Ctx):
 
 def _check_polyline_export(ctx, o, poly, Pq, n, params, icls, rcls, det, scale, custom=False, eval_bad=False):
     rep = ctx.rep
-    s = ctx.s
+    s = ctx.axis(3)
     sub = "C19.bezier.curve.export" + (".custom_pos" if custom else "")
     callee = "BezierCurve.as_polyline"
     cls = f"{icls}:{rcls}"
@@ -881,20 +1064,21 @@ def _run_patches(task, ctx: Ctx):
     import numpy as np
     import mouette as M
     rep = ctx.rep
-    s = ctx.set_unit(task, "patch")
+    ctx.set_unit(task, "patch")
+    s = ctx.axis(3)
     lite = bool(task.get("lite"))          # unit-of-length tasks: evaluations and two exports per net
     for inet, net in enumerate(task["nets"]):
         m, n = len(net), len(net[0])
         rep.flag(f"patch:net{m}x{n}")
         icls = "rows==cols" if m == n else "rows!=cols"      # coarse class (the net is in the detail)
-        as_int = inet % 2 == 1 and all((float(x) * s).is_integer() for row in net for p in row for x in p)
+        as_int = inet % 2 == 1 and all((float(x) * s[k]).is_integer() for row in net for p in row for k, x in enumerate(p))
         if as_int:
             icls += ":int_control_points"
         eval_bad = [False]
         flat = [p for row in net for p in row]
         scale = max(1.0, max(abs(x) for p in flat for x in p))
         Pq = [[tuple(Fr(x) for x in p) for p in row] for row in net]
-        o = call(M.splines.BezierPatch, [[tuple((int(x * s) if as_int else float(x) * s) for x in p) for p in row] for row in net])
+        o = call(M.splines.BezierPatch, [[tuple((int(x * s[k]) if as_int else float(x) * s[k]) for k, x in enumerate(p)) for p in row] for row in net])
         rep.traces += 1
         rep.states += 1
         if not o.ok:
@@ -1024,7 +1208,7 @@ def _check_surface_export(ctx, o, net, n1, n2, rcls, narrow, scale, eval_bad=Fal
         return
     for k in range(nv):
         rep.evaluations += 1
-        got = _vec(mesh.vertices[k], ctx.s)
+        got = _vec(mesh.vertices[k], ctx.axis(3))
         ok, w = narrow(got, L.frac(uv[k][0]), L.frac(uv[k][1]))
         if not ok:
             if not eval_bad:      # a wrong evaluate() is reported once, under C19.bezier.patch.evaluate
@@ -1463,6 +1647,360 @@ def _run_patch_hist(task, ctx: Ctx):
         _patch_ownership(ctx, M.splines.BezierPatch, net, form, convs)
     rep.sample({"bezier_patch_history": {"control_net": task["nets"][-1], "first_call": "evaluate(u,v), u,v in {0,1/3,1} | as_surface(2,3)",
                                          "edit": "pts[i][j] = Vec(p + OFFSET) | pts[i][j][...] = p + OFFSET", "offset": OFFSET}})
+
+
+# ================================================================================================ call histories on the domain objects
+# The object a sampler is handed (box; mesh; centre) has a life before the call: a second object is derived from it, one of them
+# is enlarged / moved through the library's own mutators (AABB.pad; transform.translate, vertex assignment), earlier answers are
+# overwritten by the caller, the sampler is called a second and a third time.  mc/c19_hist.py holds the reference model (VALUE
+# semantics: every object has a domain of its own, a mutator changes the object it is called on and nothing else) and enumerates
+# every event sequence up to a depth; here each one is replayed on FRESH real objects and every sampling answer is judged, by the
+# unchanged judges of the regular tasks, against the domain the model holds for the sampled object at that time.
+BOX_FORMS = ["tuple", "list", "f64", "i64", "f32", "vec", "unit_cube", "of_points"]
+VEC_FORMS = ["list", "tuple", "ndarray", "vec"]
+CENTRE_FORMS = ["vec", "f64", "i64", "list", "tuple"]
+H_BOX = [[0, 1], [-2, 1], [3, 5]]
+H_CENTRE, H_RADII = [1, -2, 3], [0.1, 3.0]
+H_MESHES = {
+    "surface2": ("surface", SURF_POINTS["moment"], [(0, 1, 2), (0, 2, 3)]),
+    "surface1": ("surface", SURF_POINTS["moment"][:3], [(0, 1, 2)]),
+    "polyline2": ("polyline", LINE_POINTS[:3], [(0, 1), (1, 2)]),
+    "polyline1": ("polyline", LINE_POINTS[1:3], [(0, 1)]),
+}
+
+
+def _as_form(vals, form):
+    import numpy as np
+    import mouette as M
+    if form == "tuple":
+        return tuple(float(x) for x in vals)
+    if form == "list":
+        return [float(x) for x in vals]
+    if form in ("f64", "ndarray"):
+        return np.array(vals, dtype=np.float64)
+    if form == "i64":
+        return np.array(vals, dtype=np.int64)
+    if form == "f32":
+        return np.array(vals, dtype=np.float32)
+    if form == "vec":
+        return M.Vec(*[float(x) for x in vals]) if len(vals) > 1 else M.Vec([float(vals[0])])
+    raise ValueError(form)
+
+
+def _event_text(evs):
+    return [" ".join(str(x) for x in ev) for ev in evs]
+
+
+def _flat_values(obj):
+    import numpy as np
+    return np.array(obj, dtype=float).ravel().tolist()
+
+
+def _kept_unchanged(ctx, kept, sub, callee, det):
+    """the caller's own argument objects hold what he put there"""
+    for label, obj, vals, form in kept:
+        ctx.rep.evaluations += 1
+        now = call(lambda: [float(x) for x in _flat_values(obj)])
+        if not now.ok or now.value != [float(x) for x in _flat_values(vals)]:
+            ctx.violation(sub, callee, "side_effect:caller_argument_modified", label,
+                          dict(det, argument=label, form=form, was=vals, now=now.value if now.ok else now.msg))
+            return False
+    return True
+
+
+# ---- boxes
+def _box_world(form, dim, AABB):
+    """fresh real objects: box first requested, the caller's corner objects (or None), objects the caller keeps, requested corners"""
+    import numpy as np
+    lo, hi = [float(b[0]) for b in H_BOX[:dim]], [float(b[1]) for b in H_BOX[:dim]]
+    if form == "unit_cube":
+        return AABB.unit_cube(dim), None, [], ([0.0] * dim, [1.0] * dim)
+    if form == "of_points":
+        pts = np.array([lo, hi, [(a + b) / 2 for a, b in zip(lo, hi)]], dtype=float)
+        return AABB.of_points(pts), None, [("points", pts, pts.tolist(), "f64")], (lo, hi)
+    lo_obj, hi_obj = _as_form(lo, form), _as_form(hi, form)
+    return AABB(lo_obj, hi_obj), (lo_obj, hi_obj), [("p_min", lo_obj, lo, form), ("p_max", hi_obj, hi, form)], (lo, hi)
+
+
+def _box_sweep(ctx, boxes, model, dim, det0, round_no):
+    """every box of the population sampled in both modes (uniform draws 0 and 1-2^-53: the corners of whatever the box really
+    stores), judged against the box the model holds for it"""
+    from mouette import sampling
+    rep = ctx.rep
+    eps = 1.0 - L.EPS53
+    for i, (b, mb) in enumerate(zip(boxes, model)):
+        if not H.box_nonempty(mb):
+            rep.count("hist:box:empty_not_sampled")
+            continue
+        mbox = [[mb[0][k], mb[1][k]] for k in range(dim)]
+        ctx.set_history(":call_history:sampled_box_" + ("padded" if mb[2] else "never_padded"))
+        plans = [("uniform", 2, False, [0.0] * dim + [eps] * dim), ("grid", 2 ** dim, dim <= 3, ()),
+                 ("uniform", 1, dim <= 3, [[0.25, 0.5, 0.75][(round_no + i + k) % 3] for k in range(dim)])]
+        for mode, n, pc, uniforms in plans:
+            o = _exec(ctx, sampling.sample_AABB, b, n, mode, pc, uniforms=uniforms)
+            det = dict(det0, sampled_box=i, box_min=list(mb[0]), box_max=list(mb[1]), n_pts=n, mode=mode, return_point_cloud=pc,
+                       uniform01_draws=list(uniforms))
+            _check_box_points(ctx, o, pc, dim, mbox, mode, n, det, {n}, hist=True)
+            rep.flag(f"hist:box:sampled:{'padded' if mb[2] else 'never_padded'}:population{len(boxes)}")
+    ctx.set_history(":call_history")
+
+
+def _run_hist_box(task, ctx: Ctx, box_cls=None):
+    import numpy as np
+    import mouette as M
+    from mouette.geometry import AABB
+    AABB = box_cls or AABB               # (the selftest runs the same code on a stand-in whose pad works in place)
+    rep = ctx.rep
+    form, dim, depth = task["form"], task["dim"], task["depth"]
+    rep.flag(f"hist:box:form={form}")
+    rep.flag(f"hist:box:dim{dim}")
+    box0, args, kept0, orig = _box_world(form, dim, AABB)
+    # reference: the fresh box, no history (what fails here is reported by the regular tasks)
+    ctx.reference = True
+    _box_sweep(ctx, [box0], H.box_init(*orig), dim, {}, 0)
+    ctx.reference = False
+    ctx.set_history(":call_history")
+    events_of = lambda st, evs: H.box_events(st, evs, has_args=args is not None)
+    step = lambda st, ev: H.box_step(st, ev, orig)
+    part, parts = task.get("part", [0, 1])       # big enumerations are dealt out to several tasks, history k to task k mod parts
+    for ih, (evs, final) in enumerate(H.enumerate_histories(H.box_init(*orig), events_of, step, depth)):
+        if ih % parts != part:
+            continue
+        box0, args, kept, orig = _box_world(form, dim, AABB)
+        kept = list(kept)
+        boxes, st = [box0], H.box_init(*orig)
+        det0 = {"first_box": f"{form} corners {orig[0]} -> {orig[1]}", "history": _event_text(evs)}
+        rep.traces += 1
+        rep.case(("hist_box", form, dim, evs))
+        api, ok, args_ok = "AABB", True, True
+        for pos, ev in enumerate(evs):
+            kind = ev[0]
+            rep.transitions += 1
+            rep.flag("hist:box:event:" + kind)
+            if kind == "sweep":
+                _box_sweep(ctx, boxes, st, dim, dict(det0, sampled_after=_event_text(evs[:pos])), pos)
+                continue
+            if kind == "corners_of":
+                api, o = "AABB", call(lambda: AABB(boxes[ev[1]].mini, boxes[ev[1]].maxi))
+            elif kind == "same_args":
+                api, o = "AABB", call(AABB, args[0], args[1])
+            elif kind == "union":
+                a, b = boxes[ev[1]], boxes[ev[2]]
+                api, o = "AABB.union", (call(lambda: a | b) if (pos + ev[1] + ev[2]) % 2 else call(AABB.union, a, b))
+            elif kind == "inter":
+                a, b = boxes[ev[1]], boxes[ev[2]]
+                api, o = "AABB.intersection", (call(lambda: a & b) if (pos + ev[1] + ev[2]) % 2 else call(AABB.intersection, a, b))
+            else:
+                amount = H.box_pad_amount(ev, dim)
+                if ev[2] == "vec":
+                    vform = VEC_FORMS[(pos + ev[1] + dim) % len(VEC_FORMS)]
+                    arg = _as_form(amount, vform)
+                    kept.append(("pad", arg, [float(x) for x in amount], vform))
+                    rep.flag("hist:box:pad_vector_form=" + vform)
+                else:
+                    arg = float(amount[0])
+                api, o = "AABB.pad", call(boxes[ev[1]].pad, arg)
+            if not o.ok:
+                ctx.violation("C19.aabb.history.returns", api, exc_kind(o), kind, dict(det0, event=" ".join(map(str, ev)), msg=o.msg))
+                ok = False
+                break
+            if kind != "pad":
+                boxes.append(o.value)
+            st = step(st, ev)
+            if args_ok:                      # reported once, at the event after which the caller's object first differs
+                args_ok = _kept_unchanged(ctx, kept, "C19.aabb.history.arguments_unchanged", api, dict(det0, changed_by=" ".join(map(str, ev))))
+        if not ok:
+            continue
+        if evs[-1][0] != "sweep":
+            _box_sweep(ctx, boxes, st, dim, det0, len(evs))
+    ctx.set_history("")
+    rep.sample({"box_history": {"first_box": form, "dim": dim, "depth": depth, "last_history": _event_text(evs)}})
+
+
+# ---- sphere / ball: one centre object through a sequence of calls
+def _judge_round(ctx, o, ball, c, r, n, pc, det):
+    import numpy as np
+    rep = ctx.rep
+    name = "ball" if ball else "sphere"
+    callee = "sampling.sample_" + name
+    icls = f"{_radius_class(r)},centre!=0"
+    if not o.ok:
+        ctx.violation(f"C19.{name}.returns", callee, exc_kind(o), icls, dict(det, msg=o.msg))
+        return
+    pts = _points_of(ctx, o, pc, f"C19.{name}.count", callee, "any", det)
+    if pts is None:
+        return
+    rep.evaluations += 1 + len(pts)
+    if pts.shape != (n, 3):
+        ctx.violation(f"C19.{name}.count", callee, "mismatch:count", icls, dict(det, got_shape=list(pts.shape)))
+        return
+    d = np.sqrt(((pts - np.array(c, dtype=float)) ** 2).sum(axis=1)) if np.isfinite(pts).all() else np.full(n, np.inf)
+    slack = 1e-15 * (max(abs(x) for x in c) + r)
+    bad = (d > r * (1 + 1e-12) + slack) if ball else ~(np.abs(d - r) <= 1e-12 * r + slack)
+    if bad.any():
+        i = int(np.argmax(bad))
+        ctx.violation(f"C19.{name}.domain", callee, "mismatch:outside_ball" if ball else "mismatch:off_sphere", icls,
+                      dict(det, point_index=i, point=pts[i], distance_to_centre=float(d[i]), radius=r))
+
+
+def _overwrite_result(value):
+    """what a caller may do with what a sampler handed back: overwrite it in place (arrays, point-cloud vertices)"""
+    import numpy as np
+    for part in (value if isinstance(value, tuple) else (value,)):
+        if isinstance(part, np.ndarray):
+            part[...] = 77.0
+        else:
+            for k in range(len(part.vertices)):
+                _scribble(part.vertices[k])
+
+
+def _run_hist_round(task, ctx: Ctx):
+    from mouette import sampling
+    rep = ctx.rep
+    form, depth = task["form"], task["depth"]
+    rep.flag(f"hist:round:form={form}")
+    G = L.lattice_vectors(1)
+    c = [float(x) for x in H_CENTRE]
+    ctx.set_history(":call_history")
+    n = 2
+    for evs, _ in H.enumerate_histories(0, lambda st, e: H.round_events(st, e, len(H_RADII)), H.round_step, depth):
+        centre = _as_form(H_CENTRE, form)
+        kept = [("center", centre, c, form)]
+        det0 = {"center": f"{form} {H_CENTRE}", "history": _event_text(evs)}
+        rep.traces += 1
+        rep.case(("hist_round", form, evs))
+        last, api, args_ok = None, "sampling.sample_sphere", True
+        for pos, ev in enumerate(evs):
+            rep.transitions += 1
+            rep.flag("hist:round:event:" + ev[0])
+            if ev[0] == "overwrite_result":
+                if last is not None and last.ok:
+                    call(_overwrite_result, last.value)
+                if args_ok:
+                    args_ok = _kept_unchanged(ctx, kept, "C19.round.history.arguments_unchanged", api, dict(det0, changed_by="overwrite_result"))
+                continue
+            ball, r, pc = ev[0] == "ball", H_RADII[ev[1]], ev[2]
+            rows = [G[(7 * pos + 5 * ev[1] + 11 * k) % len(G)] for k in range(n)]
+            normals = [row[k] for k in range(3) for row in rows]
+            uniforms = [U6[(pos + k + 2) % 6] for k in range(n)] if ball else ()
+            api = "sampling.sample_" + ev[0]
+            last = _exec(ctx, getattr(sampling, "sample_" + ev[0]), centre, r, n, pc, normals=normals, uniforms=uniforms)
+            if True:
+                _judge_round(ctx, last, ball, c, r, n, pc, dict(det0, call=pos, radius=r, n_pts=n, return_point_cloud=pc,
+                                                                normal_draws_per_point=rows, uniform01_draws=list(uniforms)))
+            rep.flag(f"hist:round:call{min(pos, 2) + 1}")
+            if args_ok:
+                args_ok = _kept_unchanged(ctx, kept, "C19.round.history.arguments_unchanged", api, dict(det0, changed_by=" ".join(map(str, ev))))
+    ctx.set_history("")
+    rep.sample({"sphere_ball_history": {"center_form": form, "depth": depth, "last_history": _event_text(evs)}})
+
+
+# ---- polylines / surfaces
+def _mesh_valid(what, elems):
+    def valid(V):
+        if what == "surface":
+            return all(any(L.tri_normal_int(*(V[v] for v in f))) for f in elems)
+        return all(V[a] != V[b] for a, b in elems)
+    return valid
+
+
+def _mesh_geometry(what, V, elems):
+    coords = [list(p) for p in V]
+    return _surface_geometry(coords, elems) if what == "surface" else _polyline_geometry(coords, elems)
+
+
+def _mesh_sample(ctx, what, mesh, V, elems, pc, salt, det0):
+    """one sampling call on one mesh of the population, judged against the geometry the model holds for it"""
+    from mouette import sampling
+    n = 2
+    G = _mesh_geometry(what, V, elems)
+    ne = len(elems)
+    if what == "surface":
+        rows = [((salt + k) % ne, U6[(salt + 2 * k + 1) % 6], U6[(2 * salt + k + 2) % 6]) for k in range(n)]
+        o = _exec(ctx, sampling.sample_surface, mesh, n, pc, True, choices=[r[0] for r in rows], uniforms=[x for r in rows for x in r[1:]])
+        det = dict(det0, vertices=G["coords"], faces=elems, n_pts=n, return_point_cloud=pc, return_normals=True)
+        det["draws_per_point(face index, u1, u2)"] = rows
+        _judge_surface_sample(ctx, o, G, n, pc, True, rows, det)
+    else:
+        rows = [((salt + k) % ne, U6[(salt + 2 * k + 1) % 6]) for k in range(n)]
+        o = _exec(ctx, sampling.sample_polyline, mesh, n, pc, choices=[r[0] for r in rows] if ne > 1 else (), uniforms=[r[1] for r in rows])
+        det = dict(det0, vertices=G["coords"], edges=elems, n_pts=n, return_point_cloud=pc)
+        det["draws_per_point(edge index, uniform01)"] = rows
+        _judge_polyline_sample(ctx, o, G, n, pc, rows, det)
+    return o
+
+
+def _run_hist_mesh(task, ctx: Ctx):
+    import mouette as M
+    from mc import families as F
+    rep = ctx.rep
+    what, coords, elems = H_MESHES[task["specimen"]]
+    elems = [tuple(e) for e in elems]
+    depth = task["depth"]
+    rep.flag("hist:mesh:" + task["specimen"])
+    build = (lambda: F.build_surface(coords, elems)) if what == "surface" else (lambda: F.build_polyline(coords, elems))
+    valid = _mesh_valid(what, elems)
+    init = H.mesh_init(coords)
+    copies = [tuple(c) for c in task["copies"]]
+    # reference: the fresh mesh, no history
+    ctx.reference = True
+    for pc in (False, True):
+        _mesh_sample(ctx, what, build(), init[0][0], elems, pc, 0, {})
+    ctx.reference = False
+    ctx.set_history(":call_history")
+    events_of = lambda st, evs: H.mesh_events(st, evs, copies)
+    step = lambda st, ev: H.mesh_step(st, ev, valid)
+    for evs, final in H.enumerate_histories(init, events_of, step, depth):
+        meshes, st = [build()], init
+        det0 = {"first_mesh": task["specimen"], "history": _event_text(evs), "translation": list(H.TRANSLATION),
+                "vertex_move": {"index": H.MOVED_VERTEX, "by": list(H.VERTEX_MOVE)}}
+        rep.traces += 1
+        rep.case(("hist_mesh", task["specimen"], evs))
+        last, ok = None, True
+        for pos, ev in enumerate(evs):
+            kind = ev[0]
+            rep.transitions += 1
+            rep.flag("hist:mesh:event:" + kind)
+            st2 = step(st, ev)
+            if kind == "sample":
+                ctx.set_history(":call_history:" + ("sampled_mesh_is_the_copy" if ev[1] else "sampled_mesh_is_the_original"))
+                last = _mesh_sample(ctx, what, meshes[ev[1]], st[0][ev[1]], elems, ev[2], pos + 1, dict(det0, call=pos, sampled_mesh=ev[1]))
+                ctx.set_history(":call_history")
+                st = st2
+                continue
+            if kind == "overwrite_result":
+                if last is not None and last.ok:
+                    call(_overwrite_result, last.value)
+                st = st2
+                continue
+            if kind == "copy":
+                api, o = "mesh.copy", call(M.mesh.copy, meshes[0], copy_attributes=ev[1], copy_connectivity=ev[2])
+                if o.ok:
+                    meshes.append(o.value)
+            elif kind == "translate":
+                api, o = "transform.translate", call(M.transform.translate, meshes[ev[1]], M.Vec(*[float(x) for x in H.TRANSLATION]))
+            else:
+                new = [float(x) for x in st2[0][ev[1]][H.MOVED_VERTEX]]
+                api = "mesh.vertices"
+                if kind == "assign_vertex":
+                    o = call(meshes[ev[1]].vertices.__setitem__, H.MOVED_VERTEX, M.Vec(*new))
+                else:
+                    o = call(lambda: _assign_in_place(meshes[ev[1]].vertices, H.MOVED_VERTEX, new))
+            if not o.ok:
+                ctx.violation(f"C19.{what}.history.returns", api, exc_kind(o), kind, dict(det0, event=" ".join(map(str, ev)), msg=o.msg))
+                ok = False
+                break
+            st = st2
+        if not ok:
+            continue
+        for i, mesh in enumerate(meshes):
+            ctx.set_history(":call_history:" + ("sampled_mesh_is_the_copy" if i else "sampled_mesh_is_the_original"))
+            for pc in ((False, True) if len(evs) < depth or i == 0 else (False,)):
+                _mesh_sample(ctx, what, mesh, st[0][i], elems, pc, len(evs) + i, dict(det0, call="after the history", sampled_mesh=i))
+                rep.flag(f"hist:mesh:final_sample:population{len(meshes)}")
+        ctx.set_history(":call_history")
+    ctx.set_history("")
+    rep.sample({"mesh_history": {"specimen": task["specimen"], "depth": depth, "last_history": _event_text(evs)}})
 
 
 # ================================================================================================ documented defaults / argument forms
@@ -1997,6 +2535,34 @@ def _run_selftest(task, ctx: Ctx):
         rep.notes.append(f"stand-in selftest: got {sorted(got)}")
     # 6. the argument-form clauses (documented defaults, positional / keyword forms, signature guard) can fail
     _selftest_defaults(rep)
+    # 7. the history clauses on the domain objects can fail: the box world on a stand-in whose pad works IN PLACE on the stored
+    #    corner vectors (so a box derived from its corners, and the caller's corner arrays, are enlarged with it), and stays silent
+    #    on the real class; the model of mc/c19_hist.py passes its own checks
+    for b in H.selftest():
+        rep.count("harness:selftest_failed")
+        rep.notes.append("history model selftest: " + b)
+    from mouette.geometry import AABB
+
+    class _StandInBox(AABB):             # NOT the library
+        def pad(self, pad):
+            self._p1 -= np.full(self.dim, pad)
+            self._p2 += np.full(self.dim, pad)
+
+    fake = Report()
+    fctx = Ctx(fake)
+    with L.Installed(sampling, fctx.seam):
+        _run_hist_box({"form": "f64", "dim": 2, "depth": 2}, fctx, box_cls=_StandInBox)
+    got = {(v["subcheck"], v["callee"], v["input_class"]) for v in fake.violations}
+    want = {("C19.aabb.history.inside", "sampling.sample_AABB", "box:call_history:sampled_box_never_padded"),
+            ("C19.aabb.history.arguments_unchanged", "AABB.pad", "p_min:call_history")}
+    quiet = Report()
+    qctx = Ctx(quiet)
+    with L.Installed(sampling, qctx.seam):
+        _run_hist_box({"form": "f64", "dim": 2, "depth": 2}, qctx)
+    if want <= got and not quiet.violations:
+        rep.flag("selftest:domain_history_clauses_can_fail")
+    else:
+        rep.notes.append(f"domain history selftest: got {sorted(got)}, on the real class {[v['subcheck'] for v in quiet.violations]}")
     rep.traces += 1
 
 
@@ -2009,7 +2575,18 @@ def run_task(task, rep: Report):
     np.random.seed(SEED % (2 ** 32))        # any unintercepted draw would at least be reproducible (and is reported)
     ctx = Ctx(rep)
     with L.Installed(sampling, ctx.seam):
-        if task.get("scale_exps"):
+        if task.get("anisos"):
+            # anisotropic deviation: the same reduced enumeration without it first (reference, only remembered), then with
+            # coordinate k of every input multiplied by 2^e[k] for every vector e of the task (x every unit of length)
+            ctx.reference = True
+            _dispatch(dict(task, scale_exp=0), ctx)
+            ctx.reference = False
+            for vec in task["anisos"]:
+                for ex in task.get("aniso_units") or [0]:
+                    ctx.set_aniso(vec)
+                    _dispatch(dict(task, scale_exp=ex), ctx)
+            ctx.set_aniso(None)
+        elif task.get("scale_exps"):
             ctx.reference = True
             _dispatch(dict(task, scale_exp=0), ctx)       # reference: same reduced enumeration at unit 1, only remembered
             ctx.reference = False
@@ -2045,6 +2622,12 @@ def _dispatch(task, ctx):
         _run_patch_hist(task, ctx)
     elif kind == "defaults":
         _run_defaults(task, ctx)
+    elif kind == "hist_box":
+        _run_hist_box(task, ctx)
+    elif kind == "hist_round":
+        _run_hist_round(task, ctx)
+    elif kind == "hist_mesh":
+        _run_hist_mesh(task, ctx)
     else:
         raise ValueError(kind)
 
@@ -2070,6 +2653,19 @@ def finish(tier, rep: Report):
     need += [f"surface:pc={a}:normals={b}" for a in (False, True) for b in (False, True)]
     need += [f"unit:2^{ex}:{k}" for ex in SCALE_EXPS
              for k in ("sphere", "ball", "aabb_grid", "aabb_uniform", "polyline", "surface", "curve", "patch")]
+    need += ["selftest:domain_history_clauses_can_fail"]
+    need += [f"hist:box:form={f}" for f in BOX_FORMS] + [f"hist:box:dim{d}" for d in (1, 2, 3)]
+    need += [f"hist:box:event:{e}" for e in ("corners_of", "same_args", "union", "inter", "pad", "sweep")]
+    need += [f"hist:box:pad_vector_form={f}" for f in VEC_FORMS]
+    need += [f"hist:box:sampled:{w}:population{k}" for w in ("padded", "never_padded") for k in (1, 2, 3)]
+    need += [f"hist:round:form={f}" for f in CENTRE_FORMS] + [f"hist:round:call{k}" for k in (1, 2, 3)]
+    need += [f"hist:round:event:{e}" for e in ("sphere", "ball", "overwrite_result")]
+    need += [f"hist:mesh:{sp}" for sp in H_MESHES] + [f"hist:mesh:final_sample:population{k}" for k in (1, 2)]
+    need += [f"hist:mesh:event:{e}" for e in ("sample", "copy", "translate", "assign_vertex", "edit_vertex_in_place", "overwrite_result")]
+    need += [f"aniso:{k}" for k in ("polyline", "surface", "aabb_grid", "aabb_uniform", "curve", "patch")]
+    need += [f"aniso:2^{k}" for k in ANISO_EXPS[tier]]
+    need += ["aniso:surface:needle_face(aspect>=2^20)", "aniso:surface:unequal_shares", "aniso:polyline:edge_lengths_differ_by>=2^20",
+             "surface:needle_tolerance_used"]
     need += ["polyline:unequal_shares:total_length<1e-8", "selftest:history_and_ownership_clauses_can_fail",
              "curve_hist:edit_changes_the_answer_at_the_same_parameter", "patch_hist:edit_changes_the_answer_at_the_same_parameters",
              "patch_hist:convention_decided"]
@@ -2109,16 +2705,16 @@ def finish(tier, rep: Report):
 def stale_variant(task, tier):
     """Tasks that are also run on meshes with a stale attribute blackboard (mc/families.py STALE; the runner appends
     ':stale_attribute_blackboard' to the input class of anything found there)."""
-    return bool(task.get("kind") in ("polyline", "surface") and not task.get("scale_exps"))
+    return bool(task.get("kind") in ("polyline", "surface") and not task.get("scale_exps") and not task.get("anisos"))
 
 
 def dupflag_variant(task, tier):
     """Tasks that are also run with config.display_duplicate_attribute_warning = True (the runner appends
     ':duplicate_attribute_flag' to the input class of anything found there)."""
-    return bool(task.get("kind") in ("polyline", "surface") and not task.get("scale_exps"))
+    return bool(task.get("kind") in ("polyline", "surface") and not task.get("scale_exps") and not task.get("anisos"))
 
 
 def warm_variant(task, tier):
     """Tasks that are also run on meshes whose attribute blackboard is already filled with (valid) persistent attributes
     (mc/families.py WARM; the runner appends ':warm_attribute_blackboard' to the input class of anything found there)."""
-    return bool(task.get("kind") in ("polyline", "surface") and not task.get("scale_exps"))
+    return bool(task.get("kind") in ("polyline", "surface") and not task.get("scale_exps") and not task.get("anisos"))
